@@ -1,6 +1,7 @@
 package peering
 
 import (
+	"errors"
 	"fmt"
 	"maps"
 	"net/netip"
@@ -152,6 +153,14 @@ func (p *Peering) AddLink(link Link) error {
 	p.linksLock.Lock()
 	defer p.linksLock.Unlock()
 
+	// There may only be one link per peer and per switch label.
+	if existing, ok := p.links[link.Peer()]; ok && existing != link {
+		return errors.New("already connected to this router")
+	}
+	if existing, ok := p.linksByLabel[link.SwitchLabel()]; ok && existing != link {
+		return errors.New("switch label already in use")
+	}
+
 	_, err := p.instance.RoutingTable().AddRoute(m.RoutingTableEntry{
 		DstIP:   link.Peer(),
 		NextHop: link.Peer(),
@@ -172,9 +181,14 @@ func (p *Peering) RemoveLink(link Link) {
 	p.linksLock.Lock()
 	defer p.linksLock.Unlock()
 
-	delete(p.links, link.Peer())
-	delete(p.linksByLabel, link.SwitchLabel())
-	p.instance.RoutingTable().RemoveNextHop(link.Peer())
+	// Only remove what is registered for this very link.
+	if p.links[link.Peer()] == link {
+		delete(p.links, link.Peer())
+		p.instance.RoutingTable().RemoveNextHop(link.Peer())
+	}
+	if p.linksByLabel[link.SwitchLabel()] == link {
+		delete(p.linksByLabel, link.SwitchLabel())
+	}
 
 	// If we reach zero links, trigger peering.
 	if len(p.links) == 0 && !p.mgr.IsDone() {
@@ -297,8 +311,8 @@ func (p *Peering) closeAllListeners() {
 }
 
 func (p *Peering) copyLinksWithLocking() map[netip.Addr]Link {
-	p.listenersLock.Lock()
-	defer p.listenersLock.Unlock()
+	p.linksLock.RLock()
+	defer p.linksLock.RUnlock()
 
 	return maps.Clone[map[netip.Addr]Link, netip.Addr, Link](p.links)
 }
